@@ -297,12 +297,24 @@ def pydantic_schema(rep: Report, prog: Program) -> None:
         # validators: every function handed to a *validator_function builder leads to __from_json__
         vals: List[ast.AST] = []
         sers: List[ast.AST] = []
+        local1: Dict[str, List[ast.AST]] = {}
+        for st in ast.walk(fi.node):
+            if isinstance(st, ast.Assign) and len(st.targets) == 1 and isinstance(st.targets[0], ast.Name):
+                local1.setdefault(st.targets[0].id, []).append(st.value)
+
+        def deref1(e: ast.AST) -> ast.AST:
+            n_ = 0
+            while isinstance(e, ast.Name) and len(local1.get(e.id, [])) == 1 and n_ < 4:
+                e = local1[e.id][0]
+                n_ += 1
+            return e
         for c in calls:
             nm = c.func.attr if isinstance(c.func, ast.Attribute) else getattr(c.func, "id", "")
-            if nm.endswith("validator_function") and c.args:
-                vals.append(c.args[0])
-            if nm.endswith("serializer_function_ser_schema") and c.args:
-                sers.append(c.args[0])
+            first = c.args[0] if c.args else next((k.value for k in c.keywords if k.arg == "function"), None)
+            if nm.endswith("validator_function") and first is not None:
+                vals.append(deref1(first))
+            if nm.endswith("serializer_function_ser_schema") and first is not None:
+                sers.append(deref1(first))
 
         def leads(e: ast.AST) -> bool:
             if not (isinstance(e, ast.Attribute) and isinstance(e.value, ast.Name) and e.value.id in ("cls", cname)):
